@@ -1,10 +1,36 @@
 import PhysisModel.Base.Proto
+import PhysisModel.Driver.C18Util
+import PhysisModel.Model.C18Hdr
+import PhysisModel.Driver.C18Fmt
+import PhysisModel.Driver.C18Arc
+import PhysisModel.Driver.C18Mat
+import PhysisModel.Driver.C18Skel
+import PhysisModel.Driver.C18Mdl
+import PhysisModel.Driver.C18Pbc
 namespace Physis.Driver.C18
-open Physis Physis.Proto
+open Physis Physis.Proto Physis.A
 
 /-- one case line in, one answer line out (see `Base/Proto.lean`) -/
 def handle (line : String) : String :=
   match fields line with
-  | _ => bad
+  | ["uld", h] => asset C18Hdr.uld h
+  | ["sgb", h] => asset C18Hdr.sgb h
+  | ["scd", h] => asset C18Hdr.scd h
+  | ["hwc", h] => asset C18Hdr.hwc h
+  | ["iwc", h] => asset C18Hdr.iwc h
+  | ["tmb", h] => asset C18Hdr.tmb h
+  | ["skp", h] => asset C18Hdr.skp h
+  | ["schd", h] => asset C18Hdr.schd h
+  | ["phyb", h] => asset C18Hdr.phyb h
+  | ["pap", h] => asset C18Hdr.pap h
+  | ["sqdb", h] => asset C18Hdr.sqdb h
+  | ["exh", h] => asset C18Hdr.exh h
+  | ["exd", h] => asset C18Hdr.exd h
+  | f =>
+    -- the other parts of C18 live in their own driver modules
+    match [C18Fmt.handle?, C18Arc.handle?, C18Mat.handle?, C18Skel.handle?, C18Mdl.handle?,
+           C18Pbc.handle?].findSome? (fun h => h f) with
+    | some a => a
+    | none => bad
 
 end Physis.Driver.C18
